@@ -147,7 +147,8 @@ Definition print_sortfields (l : list sortfield) : text := join_with (ts ", ") (
 
 (* Target.String on a non-nil target *)
 Definition print_target (m : measurement) : text :=
-  ts "INTO " ++ print_measurement m ++ (if is_empty (m_name m) then ts ":MEASUREMENT" else []).
+  ts "INTO " ++ print_measurement m
+  ++ (if is_empty (m_name m) then (if is_empty (m_db m) && is_empty (m_rp m) then [34; 34] else ts ":MEASUREMENT") else []).
 
 (* Sources.String: src, ", " between *)
 Definition print_sources_with (ps : source -> text) (l : list source) : text :=
